@@ -64,6 +64,7 @@ class C18(World):
         "OpenPinch.classes.simple_heat_pump.SimpleHeatPumpCycle (solve, metrics, build_stream_collection, condenser/evaporator profiles)",
         "OpenPinch.classes.stream.Stream / StreamCollection (emitted stream sets)",
         "CoolProp low-level AbstractState inside the cycle object (real property library)",
+        "OpenPinch.analysis.heat_pump_targeting._compute_multi_simple_hp_system_performance with _create_multi_simple_hp_list / _build_simulated_hps_streams / get_process_heat_cascade (the targeting pipeline's own use of the cycle class, on a generated two-point background profile)",
     ]
     components_stub = []
     fault_kinds = ["solve_failure"]
@@ -71,7 +72,7 @@ class C18(World):
     rule = (
         "each run = one generated history (3-16 steps) on 1-2 cycle objects: solve(fluid, Te, Tc, dT_sh, dT_sc, eta, Q, ihx_gas_dt=0), "
         "build(cond) / build(evap) / build(both), dtcont / dt_diff_max assignment, metric reads, re-solve with new arguments, deliberately "
-        "failing solves; fluids 70 % mainstream refrigerants, 30 % any CoolProp fluid; temperatures inside [max(Ttriple,Tmin)+5 K, Tcrit-10 K] "
+        "failing solves, cascade (the targeting pipeline's objective function evaluated on 1-3 generated cycles, optionally twice, with every solve / build_stream_collection call it makes monitored and judged like a direct one); fluids 70 % mainstream refrigerants, 30 % any CoolProp fluid; temperatures inside [max(Ttriple,Tmin)+5 K, Tcrit-10 K] "
         "with lift >= dT_sh + dT_sc + 2 K (+12 K for zeotropic blends).  distinct = distinct step list; non-trivial = >=1 successful solve followed by >=2 stream-set requests "
         "or a re-solve."
     )
@@ -100,6 +101,7 @@ class C18(World):
             p_fail=sw.choice([0, 0, 0.1]),
             w_build=sw.choice([1, 3]),
             w_resolve=sw.choice([0, 1, 2]),
+            w_cascade=sw.choice([0, 0.5, 1.5, 6]),
             unit_systems=[sw.choice(["EUR", "EUR", "SI", "KSI"]) for _ in range(2)],
         )
         if self.tier == "thorough" and sw.random() < 0.3:
@@ -171,7 +173,7 @@ class C18(World):
                 solved[o] = True
             else:
                 w = swarm["w_build"]
-                cand = [("renew", 0.4), ("build_cond", 2 * w), ("build_evap", 2 * w), ("build_both", 1 * w), ("set_dtcont", 0.7), ("set_dtdiff", 0.3), ("set_system", 0.25), ("set_state", 0.3), ("read", 0.7), ("solve", 1.0 * swarm["w_resolve"]), ("solve_fail", 10 * swarm["p_fail"])]
+                cand = [("cascade", swarm["w_cascade"]), ("renew", 0.4), ("build_cond", 2 * w), ("build_evap", 2 * w), ("build_both", 1 * w), ("set_dtcont", 0.7), ("set_dtdiff", 0.3), ("set_system", 0.25), ("set_state", 0.3), ("read", 0.7), ("solve", 1.0 * swarm["w_resolve"]), ("solve_fail", 10 * swarm["p_fail"])]
                 op = ops.choices([k for k, _ in cand], [x for _, x in cand])[0]
                 if op == "solve" and args.random() < 0.4:
                     # re-solve the same operating point with ONE argument changed (resolved at execution from the object's last request)
@@ -184,6 +186,18 @@ class C18(World):
                     st = gen_solve()
                     st["op"] = "solve_fail"
                     st["how"] = args.choice(["Te_above_Tc", "Tc_huge", "Te_below_min"])
+                elif op == "cascade":
+                    # the targeting pipeline's own use of the cycle class: n objects created, solved and asked for both stream sets
+                    # inside _compute_multi_simple_hp_system_performance (called hundreds of times per optimisation with the same args)
+                    n = args.choice([1, 2, 2, 3])
+                    hps = []
+                    for _ in range(n):
+                        g = gen_solve()
+                        nm = g["refrigerant"]
+                        if args.random() < 0.5 and "(E)" not in nm:
+                            nm = nm.upper()  # the pipeline upper-cases configured refrigerant names
+                        hps.append(dict(refrigerant=nm, Te=g["Te"], Tc=g["Tc"], dT_sh=g["dT_sh"], dT_sc=g["dT_sc"], Q=float(g["Q"])))
+                    st = dict(op=op, hps=hps, eta=float(args.choice([1.0, 0.9, 0.7, 0.7, 0.5])), dt_ihx=(5.0 if args.random() < 0.08 else 0.0), repeat=args.random() < 0.5)
                 elif op == "renew":
                     st = dict(op=op)
                     solved[o] = False
@@ -205,7 +219,7 @@ class C18(World):
 
     def nontrivial(self, trace):
         ops = [s["op"] for s in trace["steps"]]
-        return "solve" in ops and (sum(o.startswith("build") for o in ops) >= 2 or ops.count("solve") >= 2)
+        return ("solve" in ops and (sum(o.startswith("build") for o in ops) >= 2 or ops.count("solve") >= 2)) or "cascade" in ops
 
     # ---------------------------------------------------------------- execution
     def execute(self, trace):
@@ -428,6 +442,142 @@ class C18(World):
                 if any(x[4] != c.dtcont for x in part):
                     V("dtcont_propagated", site(o, label), step, f"emitted streams carry dt_cont {[x[4] for x in part]} but the cycle's is {c.dtcont}")
 
+        def adopt(c, m, a, judgeable):
+            """Reference-model bookkeeping after a successful solve of cycle c with request a (domain, regime, first metrics)."""
+            m.update(solved=True, args=a, first={}, pattern=[], metrics=None, n_cond=None, n_evap=None, fluid=a["refrigerant"])
+            lim = limits(a["refrigerant"])
+            in_domain = lim is not None and lim[0] + 5.0 - 0.011 <= a["Te"] + 273.15 and a["Tc"] + 273.15 <= lim[1] - 10.0 + 0.011 and a["Tc"] - a["Te"] >= a["dT_sh"] + a["dT_sc"] + 2.0 + (12.0 if is_blend(a["refrigerant"]) else 0.0) - 1e-9 and judgeable
+            if in_domain:
+                try:
+                    in_domain = CP.PropsSI("P", "T", a["Te"] + 273.15, "Q", 1, a["refrigerant"]) >= 10.0 * 0.999
+                except Exception:
+                    in_domain = False
+            m["judged"] = c.ihx_gas_dt == 0 and in_domain
+            if not in_domain:
+                probe("skipped_outside_domain")
+                return "ok:skipped_domain"
+            if not m["judged"]:
+                probe("skipped_nonzero_ihx")
+                return "ok:skipped_ihx"
+            m["regime"] = regime_of(c, a)
+            probe("regime:" + m["regime"])
+            if "no_sat" in m["regime"]:
+                m["judged"] = False  # the independent property call cannot classify this cycle: not judged
+                probe("skipped_no_independent_oracle")
+            m["metrics"] = read_metrics(c)
+            return "ok:" + prng.digest([repr(x) for x in m["metrics"]["Hs"]])
+
+        def run_cascade(step, st):
+            """The targeting pipeline's own use of the cycle class, monitored: every object it solves and every stream set it
+            asks for goes through the same state invariants and stream checks as a directly driven object, and the totals the
+            pipeline reports are checked against the objects (first-law bookkeeping over the whole cascade)."""
+            import numpy as np
+            from OpenPinch.analysis import heat_pump_targeting as HPT
+            from OpenPinch.lib.schema import HeatPumpTargetInputs
+
+            hps = st["hps"]
+            n = len(hps)
+            del objs[n_obj:], M[n_obj:]  # objects of an earlier cascade are dropped (the optimiser drops them too)
+            Tc = np.array([h["Tc"] for h in hps], dtype=float)
+            Te = np.array([h["Te"] for h in hps], dtype=float)
+            Q = np.array([h["Q"] for h in hps], dtype=float)
+            T_cold = np.array([Tc.max() + 5.0, Tc.min() - 30.0])
+            T_hot = np.array([Te.max() + 30.0, Te.min() - 5.0])
+            H_cold = np.array([Q.sum(), 0.0])
+            H_hot = np.array([0.0, -Q.sum()])
+            rng_ = float(max(T_cold[0], T_hot[0]) - min(T_cold[-1], T_hot[-1]))
+            try:
+                nh, _ = HPT._create_net_hot_and_cold_stream_collections_for_background_profile(T_hot, np.abs(H_hot))
+                _, nc = HPT._create_net_hot_and_cold_stream_collections_for_background_profile(T_cold, H_cold)
+                hargs = HeatPumpTargetInputs(Q_hp_target=float(Q.sum()), Q_amb_max=0.0, T_hot=T_hot, H_hot=H_hot, T_cold=T_cold, H_cold=H_cold, dt_range_max=rng_, is_direct_integration=True, is_heat_pumping=True, n_cond=n, n_evap=n, eta_comp=st["eta"], eta_exp=0.7, eta_hp_carnot=0.5, eta_he_carnot=0.5, dtcont_hp=0.0, dt_hp_ihx=st.get("dt_ihx", 0.0), T_env=15.0, dt_env_cont=5.0, dt_phase_change=0.1, refrigerant_ls=[h["refrigerant"] for h in hps], price_ratio=1.0, max_multi_start=1, net_hot_streams=nh, net_cold_streams=nc)
+            except Exception as e:  # background construction is not the subject here
+                probe("cascade_background_not_constructible")
+                return "skip:" + type(e).__name__
+            x = np.concatenate([(T_cold[0] - Tc) / rng_, np.array([h["dT_sc"] for h in hps]) / rng_, Q / float(Q.sum()), (Te - T_hot[-1]) / rng_, np.array([h["dT_sh"] for h in hps]) / rng_])
+            cls = SimpleHeatPumpCycle
+            o_solve, o_build = cls.solve, cls.build_stream_collection
+            answers = []
+            for rep in range(2 if st.get("repeat") else 1):
+                calls = []
+
+                def solve(self, *a_, **k_):
+                    r = o_solve(self, *a_, **k_)
+                    calls.append(("solve", self, k_))
+                    return r
+
+                def build(self, *a_, **k_):
+                    r = o_build(self, *a_, **k_)
+                    calls.append(("build", self, k_, r))
+                    return r
+
+                cls.solve, cls.build_stream_collection = solve, build
+                try:
+                    res = HPT._compute_multi_simple_hp_system_performance(x, hargs)
+                    err = None
+                except Exception as e:
+                    res, err = None, e
+                finally:
+                    cls.solve, cls.build_stream_collection = o_solve, o_build
+                if err is not None:
+                    stats["faults"]["solve_failure"] = stats["faults"].get("solve_failure", 0) + 1
+                    probe("cascade_raised")
+                    return "raise:" + type(err).__name__
+                if "work_hp" not in res:
+                    probe("cascade_rejected_by_lift_constraint")
+                    return "ok:rejected"
+                probe("cascade_evaluated")
+                if rep == 1:
+                    probe("cascade_evaluated_twice_with_the_same_arguments")
+                del objs[n_obj:], M[n_obj:]
+                index = {}
+                for cl in calls:
+                    if cl[0] == "solve":
+                        k_ = cl[2]
+                        try:
+                            a = dict(refrigerant=str(k_["refrigerant"]), Te=float(k_["Te"]), Tc=float(k_["Tc"]), dT_sh=float(k_["dT_sh"]), dT_sc=float(k_["dT_sc"]), eta=float(k_["eta_comp"]), Q=float(k_["Q_h_total"]))
+                        except Exception:
+                            probe("cascade_solve_call_not_understood")  # the pipeline passes its request some other way: not judged
+                            continue
+                        objs.append(cl[1])
+                        M.append(dict(solved=False, args=None, regime="", metrics=None, first={}, pattern=[], judged=False))
+                        index[id(cl[1])] = len(objs) - 1
+                        adopt(cl[1], M[-1], a, True)
+                        if M[-1]["judged"]:
+                            probe("cascade_object_judged")
+                for cl in calls:
+                    if cl[0] == "build" and id(cl[1]) in index:
+                        j = index[id(cl[1])]
+                        k_ = cl[2]
+                        kind = "b" if k_.get("include_cond") and k_.get("include_evap") else "c" if k_.get("include_cond") else "e" if k_.get("include_evap") else None
+                        if kind and M[j]["judged"]:
+                            M[j]["pattern"].append(kind)
+                            judge_streams(j, step, kind, cl[3])
+                            probe("cascade_stream_set_judged")
+                idx = list(index.values())
+                if len(idx) == n and all(M[j]["judged"] and M[j]["regime"] == "regular" for j in idx):
+                    # totals the pipeline reports versus the cycle objects it solved (all in the regular regime)
+                    s_ = "regular|cascade"
+                    qc = sum(objs[j].Q_cond for j in idx)
+                    qe = sum(objs[j].Q_evap for j in idx)
+                    wk = sum(objs[j].work for j in idx)
+                    tick("cascade_first_law")
+                    if not rel(float(np.sum(res["Q_cond"])), float(np.sum(res["Q_evap"])) + float(res["work_hp"]), 1e-9, 1e-12):
+                        V("cascade_first_law", s_, step, f"pipeline totals: Q_cond {float(np.sum(res['Q_cond']))!r} != Q_evap {float(np.sum(res['Q_evap']))!r} + work {float(res['work_hp'])!r}")
+                    if not (rel(float(res["work_hp"]), wk, 1e-9, 1e-12) and rel(float(np.sum(res["Q_evap"])), qe, 1e-9, 1e-12)):
+                        V("cascade_first_law", s_, step, f"pipeline totals differ from the cycle objects: work {float(res['work_hp'])!r} vs {wk!r}, Q_evap {float(np.sum(res['Q_evap']))!r} vs {qe!r}")
+                    tick("cascade_duty")
+                    hot = sum(s.heat_flow for s in res["hp_hot_streams"])
+                    cold = sum(s.heat_flow for s in res["hp_cold_streams"])
+                    if not (abs(hot - qc) <= 1e-6 * max(abs(qc), 1e-12) and abs(cold - qe) <= 1e-6 * max(abs(qc), 1e-12)):
+                        V("cascade_duty", s_, step, f"aggregated stream sets carry {hot!r} / {cold!r}, the cycles report {qc!r} / {qe!r}")
+                sig = [[(repr(float(s.t_supply)), repr(float(s.t_target)), repr(float(s.heat_flow))) for s in res[k]] for k in ("hp_hot_streams", "hp_cold_streams")] + [repr(float(res["work_hp"]))]
+                answers.append(sig)
+            if len(answers) == 2:
+                tick("cascade_repeat")
+                if answers[0] != answers[1]:
+                    V("cascade_repeat", "cascade", step, "the same cascade evaluated twice with the same arguments gave different stream sets / work")
+            return "ok:" + prng.digest(answers[0])
+
         prev_op = None
         for step, st in enumerate(trace["steps"]):
             op = st["op"]
@@ -438,7 +588,7 @@ class C18(World):
                 stats["pairs"][prev_op + ">" + op] = stats["pairs"].get(prev_op + ">" + op, 0) + 1
             prev_op = op
             outcome = None
-            others_before = {j: (read_metrics(objs[j]) if M[j]["solved"] and M[j]["judged"] else None) for j in range(n_obj) if j != o}
+            others_before = {j: (read_metrics(objs[j]) if M[j]["solved"] and M[j]["judged"] else None) for j in range(len(objs)) if j != o}
             if op == "solve_variant" and not (m["solved"] and m["args"]):
                 outcome = "skip"
             elif op in ("solve", "solve_fail", "solve_variant"):
@@ -485,29 +635,7 @@ class C18(World):
                 if ok:
                     if was:
                         probe("re_solve")
-                    m.update(solved=True, args=a, first={}, pattern=[], metrics=None, n_cond=None, n_evap=None, fluid=a["refrigerant"])
-                    lim = limits(a["refrigerant"])
-                    in_domain = lim is not None and lim[0] + 5.0 - 0.011 <= a["Te"] + 273.15 and a["Tc"] + 273.15 <= lim[1] - 10.0 + 0.011 and a["Tc"] - a["Te"] >= a["dT_sh"] + a["dT_sc"] + 2.0 + (12.0 if is_blend(a["refrigerant"]) else 0.0) - 1e-9 and op in ("solve", "solve_variant")
-                    if in_domain:
-                        try:
-                            in_domain = CP.PropsSI("P", "T", a["Te"] + 273.15, "Q", 1, a["refrigerant"]) >= 10.0 * 0.999
-                        except Exception:
-                            in_domain = False
-                    m["judged"] = c.ihx_gas_dt == 0 and in_domain
-                    if not in_domain:
-                        probe("skipped_outside_domain")
-                        outcome = "ok:skipped_domain"
-                    elif not m["judged"]:
-                        probe("skipped_nonzero_ihx")
-                        outcome = "ok:skipped_ihx"
-                    else:
-                        m["regime"] = regime_of(c, a)
-                        probe("regime:" + m["regime"])
-                        if "no_sat" in m["regime"]:
-                            m["judged"] = False  # the independent property call cannot classify this cycle: not judged
-                            probe("skipped_no_independent_oracle")
-                        m["metrics"] = read_metrics(c)
-                        outcome = "ok:" + prng.digest([repr(x) for x in m["metrics"]["Hs"]])
+                    outcome = adopt(c, m, a, op in ("solve", "solve_variant"))
                 else:
                     if ref is not None:
                         m["fluid"] = ref  # the working fluid is installed before anything can fail
@@ -526,6 +654,8 @@ class C18(World):
                     elif not still:
                         m["solved"] = False
                         probe("failed_solve_leaves_unsolved")
+            elif op == "cascade":
+                outcome = run_cascade(step, st)
             elif op == "renew":
                 # a new cycle object constructed while others are already solved (as the targeting code does)
                 objs[o] = c = SimpleHeatPumpCycle(usys[(o + 1) % len(usys)])
@@ -580,10 +710,12 @@ class C18(World):
                 probe("public_surface_read")
                 outcome = "ok"
             # ---- invariants on every solved judged object after every step
-            for j in range(n_obj):
+            for j in range(len(objs)):
                 if M[j]["solved"] and M[j]["judged"]:
                     invariants(j, step)
             for j, before in others_before.items():
+                if j >= n_obj and op == "cascade":
+                    continue  # a cascade replaces the pipeline's own objects
                 if before is not None and M[j]["solved"] and M[j]["judged"]:
                     tick("object_indep")
                     if read_metrics(objs[j]) != before:
